@@ -4718,3 +4718,15 @@ M('C14', 'copy-chain-filters-revocations', PGP, KEYCOPY_ALL,
   "        own_sigs = (sig for sig in self._signatures if not sig.embedded and sig.type != SignatureType.KeyRevocation)\n\n        for component in itertools.chain(self._uids, self._children.values(), own_sigs):\n            key |= copy.copy(component)\n", 'C14.4')
 M('C14', 'copy-chain-filters-uids', PGP, KEYCOPY_ALL,
   "        own_sigs = (sig for sig in self._signatures if not sig.embedded)\n        ids = (u for u in self._uids if u.is_uid)\n\n        for component in itertools.chain(ids, self._children.values(), own_sigs):\n            key |= copy.copy(component)\n", 'C14.4')
+# trailer length: any integer-linear spelling of the length of the covered run (held-out twin C05-ref9); one item left out / counted twice is not
+_TRL = ("        hcontext = bytearray()\n        hcontext.append(self._signature.header.version if not self.embedded else self._signature._sig.header.version)\n        hcontext.append(self.type)\n        hcontext.append(self.key_algorithm)\n        hcontext.append(self.hash_algorithm)\n"
+        "        hcontext += self._signature.subpackets.__hashbytearray__()\n        hlen = len(hcontext)\n        _data += hcontext\n        _data += b'\\x04\\xff'\n        _data += self.int_to_bytes(hlen, 4)\n")
+_TRL_NEW = ("        sigpkt = self._signature._sig if self.embedded else self._signature\n        fixed = bytearray((sigpkt.header.version, self.type, self.key_algorithm, self.hash_algorithm))\n        hashed = self._signature.subpackets.__hashbytearray__()\n"
+            "        _data += fixed\n        _data += hashed\n        _data += b'\\x04\\xff' + self.int_to_bytes(%s, 4)\n")
+for _p in ('C01', 'C02', 'C05', 'C11'):
+    T(_p, 'twin-trailer-length-sum-of-subruns', PGP, _TRL, _TRL_NEW % 'len(hashed) + len(fixed)')
+    T(_p, 'twin-trailer-length-fixed-first-plus-constant-split', PGP, _TRL, _TRL_NEW % '2 + len(hashed) + 2')
+for _p, _r in (('C02', 'C02.1'), ('C05', 'C05.4')):
+    M(_p, 'trailer-length-sum-leaves-one-octet-out', PGP, _TRL, _TRL_NEW % 'len(hashed) + len(fixed[:3])', _r)
+    M(_p, 'trailer-length-sum-counts-fixed-twice', PGP, _TRL, _TRL_NEW % 'len(fixed) + len(hashed) + len(fixed)', _r)
+    M(_p, 'trailer-length-sum-omits-hashed-area', PGP, _TRL, _TRL_NEW % 'len(fixed) + 2', _r)
